@@ -288,15 +288,27 @@ Definition reg_report (l : list item) (tgt : option comm) (posts : list (Z * hol
 
 (* `prices --now D` (iterators.cc:139-160, history.cc:322-372): for a commodity c that occurs
    in a posting, every entry not after D of every usable edge at c whose price is not
-   expressed in c itself *)
+   expressed in c itself.  The report drops a row when an earlier row of the same commodity
+   has the same day and the same price (create_price_xact, iterators.cc:82-88). *)
+Definition same_row (x y : Z * price) : bool :=
+  (fst x / 86400 =? fst y / 86400) && comm_eqb (pc (snd x)) (pc (snd y))
+  && Qeq_bool (pq (snd x)) (pq (snd y)).
+
+Fixpoint dedup_rows (seen l : list (Z * price)) : list (Z * price) :=
+  match l with
+  | [] => []
+  | x :: r => if existsb (same_row x) seen then dedup_rows seen r else x :: dedup_rows (x :: seen) r
+  end.
+
 Definition listing_of (g : graph) (c : comm) (D : Z) : list (Z * comm * price) :=
-  flat_map (fun e =>
-    match other_end e c, pm_recent (em e) D with
-    | Some _, Some _ =>
-        map (fun wp => (fst wp, c, snd wp))
-            (filter (fun wp => (fst wp <=? D) && negb (comm_eqb (pc (snd wp)) c)) (em e))
-    | _, _ => []
-    end) g.
+  map (fun wp => (fst wp, c, snd wp))
+    (dedup_rows []
+      (flat_map (fun e =>
+         match other_end e c, pm_recent (em e) D with
+         | Some _, Some _ =>
+             filter (fun wp => (fst wp <=? D) && negb (comm_eqb (pc (snd wp)) c)) (em e)
+         | _, _ => []
+         end) g)).
 
 Definition prices_report (l : list item) (posted : list comm) (D : Z) : list (Z * comm * price) :=
   let g := build (history_of l) in
